@@ -23,7 +23,7 @@ MANIFEST = dict(
          "an arbitrary searcher oracle) never return Panic; the chat-line parsers (total by construction) return exactly the unique split of the "
          "line in the language of their pattern, or empty strings, and equal an ordered backtracking search over the patterns; every index of the "
          "regenerated feature-name table of ai/json.go is below MaxFeature (by computation on every run), hence the loop of Weights.UnmarshalJSON "
-         "over the decoded map never panics and its class does not depend on the map's iteration order. The models' outcome class (value / error / panic) is compared with the "
+         "over the decoded map never panics, its class does not depend on the iteration order of the map, and marshal-then-unmarshal is the identity on every weight set. The models' outcome class (value / error / panic) is compared with the "
          "implementation's on every generated string, exhaustively for short strings, and every call runs under recover and a deadline.",
     ref='5.13', technique='Coq totality proofs over models with explicit Panic results + model/implementation differential on byte strings (exhaustive for short strings) + crash/hang oracle',
     note="Trusted: Coq kernel, extraction, transcriptions (their Panic guards are exactly what the correspondence validates), encoding/json totality, Go's regexp semantics on the three chat patterns (validated by execution).")
